@@ -3,20 +3,27 @@ from __future__ import annotations
 
 import contextlib
 import io
+import os
 import random
+import sys
+import threading
+import time
 from typing import Any, Callable, Iterable, Optional
 
 from harness.common import Ck, coq_bool, coq_list, coq_str, parse_coq_N_list, parse_coq_nested
 from translate import c16_fgd
 
 MANIFEST = dict(
-    technique='Rocq proof (long-string writer/reader for all strings; token-level writers/parsers of keyvalue, spawnflag, choices, '
-              'I/O lines and @resources blocks for every split of long strings, joined to the character level; codec tables, bit '
-              'packings, whole binary records, blocks, file header and block positions; lazy database = eager database for all query '
-              'orders including what stored base names are replaced by) + fail-closed ast translator (constants, escape table, decisive '
-              'writer branches, I/O skeletons of the (un)serialisers, shape of get_ent/_parse_block/get_fgd) + vm_compute correspondence '
-              '(byte-exact for binary records and blocks of the shipped file; token-exact for text lines) + export/parse/export, binary and '
-              'lazy-loading oracles on the bundled database, generated FGDs and hand-built databases',
+    technique='Rocq proof (long-string writer/reader for all strings; token-level writers/parsers of the entity header (bases / aliasof, '
+              'helpers, class name, description), of keyvalue, spawnflag, choices, I/O lines and @resources blocks for every split of long '
+              'strings, joined to the character level and composed into a whole entity definition; codec tables, bit packings, whole '
+              'binary records, blocks, file header and block positions; lazy database = eager database for all query orders including '
+              'what stored base names are replaced by; a LIST of databases: first-hit look-up = first-wins merge for all histories) + '
+              'fail-closed ast translator that normalises before matching (constants, escape table, decisive writer branches read off '
+              'all paths, I/O skeletons of the (un)serialisers, shape of get_ent/_parse_block/get_fgd, shape of the engine_def loop and '
+              'of the engine_dbase merge) + vm_compute correspondence (byte-exact for binary records and blocks of the shipped file; '
+              'token-exact for text lines and entity headers; histories over several hand-built databases) + export/parse/export, '
+              'binary and lazy-loading oracles on the bundled database, generated FGDs, hand-built databases and added databases',
     text='Theorems in Props/C16.v. Text: for every text, indent and line tail the reader (_handle_string and the "+" continuation of '
          '_read_colon_list) returns exactly what _write_longstring wrote, the writer never writes nothing, keeps every section within LIMIT '
          'and never cuts between a backslash and its symbol (extended syntax: all texts; plain syntax: texts without ", \\ and CR); at the '
@@ -24,30 +31,39 @@ MANIFEST = dict(
          'every spawnflag item (generated [n] label removed again) and choices item, every input/output line and every @resources '
          'block (undefined / defined-empty / non-empty) that the writers emit is parsed back to the same field values, for every split '
          'of the long strings into "+" sections, and with display name and description produced by _write_longstring the parser returns '
-         'exactly the two texts; the single-colon and only-non-empty-resources writer variants are refuted. Binary: VALUE_TYPE_ORDER/'
+         'exactly the two texts; the entity header (base()/aliasof() with any number of bases, any list of helpers with or without '
+         'arguments, class name, description) is read back as the same bases, alias flag, helper objects, name and description, and '
+         'header + body compose into the round trip of a whole entity definition; the single-colon and only-non-empty-resources writer '
+         'variants are refuted. Binary: VALUE_TYPE_ORDER/'
          'FILE_TYPE_ORDER indexes, "index|128" bytes, EntFlags, spawnflag powers, BinStrDict indexes, 16-bit indexes, separator-joined '
          'lists; composed into ent_unserialise(ent_serialise(e) ++ rest) = (e, rest) for whole definitions and whole blocks with the '
          'block dictionary, the file header and the block positions. Lazy: for every query sequence on a fresh database the answers '
          '(definition AND what every stored base name was replaced by, alias chains across blocks included) equal those of the fully '
-         'loaded database; base look-ups terminate; the ent_map-look-up variant is refuted. The objects the theorems quantify over are '
+         'loaded database; base look-ups terminate; the ent_map-look-up variant is refuted. Several databases (add_engine_database): '
+         'for every list of files and every history of EntityDef.engine_def() look-ups the answers equal FGD.engine_dbase() when the '
+         'merge keeps the first definition of a class, both are the content of the first file that defines it, and the overwriting '
+         'merge (dict.update) is refuted on every class whose first and last definitions differ. The objects the theorems quantify over are '
          'regenerated from the source on every run and kernel-checked as named instance obligations; all hand models are compared with the '
          'implementation on generated and shipped data; the whole bundled database and generated FGDs are exported, parsed and exported '
-         'again, serialised to the binary format and back, and queried lazily in random orders.',
-    note='Still search only: entity headers (class kind, base()/aliasof(), helpers), snippets, @MaterialExclusion/@AutoVisgroup, the order of '
-         'lines inside an entity, and the character-level lexing of everything except quoted strings (bare words, punctuation, comments): '
-         'the line models work on the token stream of the real Tokenizer and are tied to KVDef.export/_parse etc. by token-exact '
-         'correspondence (also on mutated token lists), not by a translator-generated core. Value types, tags and numbers are abstract in '
-         'the line theorems; their premises are checked exhaustively on the real tables (data obligations). Block decoding in the lazy model is '
-         'a parameter (a function of the block bytes), lzma is outside the model, compute_ent_strings/build_blocks (how entities are '
-         'grouped into blocks) are not modelled. Accepted normalisations of the text form: I/O types decay (VALUE_TO_IO_DECAY), empty BOOL '
+         'again, serialised to the binary format and back (also as small databases that exercise the overflow blocks), queried lazily in '
+         'random orders, and queried with an added database in front of the bundled one.',
+    note='Still search only: snippets, @MaterialExclusion/@AutoVisgroup and autovis() helpers, the `@PointClass` keyword line of FGD.parse_file, '
+         'FGD.sorted_ents, and the character-level lexing of everything except quoted strings (bare words, punctuation, comments): '
+         'the line and header models work on the token stream of the real Tokenizer and are tied to the exporters/parsers by token-exact '
+         'correspondence (also on mutated token lists), not by a translator-generated core. Helper objects, value types, tags and numbers '
+         'are abstract in the theorems; their premises are checked on the real tables / generated helpers (data obligations). Block decoding '
+         'in the lazy model is a parameter (a function of the block bytes), lzma is outside the model, compute_ent_strings/build_blocks (how '
+         'entities are grouped into blocks) are not modelled (searched with small generated databases), deepcopy in engine_def/engine_dbase '
+         'and FGD.apply_bases after the merge are outside the model. The translator assumes that attribute loads are plain field reads and '
+         'that the str methods it inlines have no effects. Accepted normalisations of the text form: I/O types decay (VALUE_TO_IO_DECAY), empty BOOL '
          'default = "0", yes/no = 1/0, kv_order is compared as effective order, newlines in choice/flag names become spaces, '
          'custom_syntax=False drops tags/resources/extension helpers/aliasof and cannot represent ", \\ or CR in texts. Quick tier runs the '
          'bundled database under 2 of the 4 option sets (all 4 in the thorough tier and whenever a tie is broken). Trusted: Coq kernel + '
-         'vm_compute, translate/c16_fgd.py, hand models Fmt/LongString.v, Fmt/FgdBin.v, Fmt/FgdBinEnt.v, Fmt/FgdLine.v, SM/LazyDb.v (tied by '
-         'correspondence), the real Tokenizer as lexer of the line correspondences, CPython.',
+         'vm_compute, translate/c16_fgd.py, hand models Fmt/LongString.v, Fmt/FgdBin.v, Fmt/FgdBinEnt.v, Fmt/FgdLine.v, Fmt/FgdBody.v, '
+         'Fmt/FgdHead.v, SM/LazyDb.v, SM/LazyDbMulti.v (tied by correspondence), the real Tokenizer as lexer of the line correspondences, CPython.',
 )
 
-IMPORTS = ['Coq.NArith.NArith', 'Coq.Lists.List', 'Coq.Strings.String', 'Coq.Bool.Bool', 'Coq.Arith.Arith', 'SV.Fmt.LongString', 'SV.Fmt.FgdBin', 'SV.Fmt.FgdBinEnt', 'SV.Fmt.FgdLine', 'SV.Fmt.FgdBody', 'SV.SM.LazyDb',
+IMPORTS = ['Coq.NArith.NArith', 'Coq.Lists.List', 'Coq.Strings.String', 'Coq.Bool.Bool', 'Coq.Arith.Arith', 'SV.Fmt.LongString', 'SV.Fmt.FgdBin', 'SV.Fmt.FgdBinEnt', 'SV.Fmt.FgdLine', 'SV.Fmt.FgdBody', 'SV.Fmt.FgdHead', 'SV.Fmt.FgdEntity', 'SV.SM.LazyDb', 'SV.SM.LazyDbMulti',
            'SV.Gen.FgdConsts_gen', 'SV.Props.C16']
 PRE = '''Import ListNotations. Open Scope bool_scope. Open Scope N_scope. Open Scope list_scope.
 Fixpoint bad_idx {A} (f : A -> bool) (n : N) (l : list A) : list N :=
@@ -176,7 +192,7 @@ def shrink_text(pred: Callable[[str], bool], s: str, budget: int = 400) -> str:
 # =============================================================================================== correspondence
 def corr_writer_reader(ck: Ck) -> None:
     rng = ck.rng
-    n_long, n_short = ck.budget(8, 120), ck.budget(110, 1500)
+    n_long, n_short = ck.budget(8, 100), ck.budget(110, 1200)
     corpus = [(True, '\t', ''), (False, '\t', ''), (True, '\t', 'q' * 999 + '"zz'), (False, '\t\t', 'q' * 999 + '\nzz'),
               (True, '\t', 'q' * 998 + '\\' + 'z'), (True, '', 'a b ' * 300), (True, '\t', ('w' * 130 + '\n') * 9),
               (False, '\t', 'x' * 1001), (True, '\t', 'x' * 1000), (True, '\t', ' ' + 'y' * 1500)]
@@ -963,6 +979,192 @@ def corr_lines(ck: Ck) -> None:
             ck.extra[f'text_line_{kind}_disagreement'] = {'site': first, 'code': codes[names.index(first)][j], 'case': [str(x)[:600] for x in row]}
 
 
+# ----------------------------------------------------------------------------------------------- entity headers
+HEAD_PRE = """Import ListNotations. Open Scope bool_scope. Open Scope N_scope. Open Scope list_scope.
+Fixpoint leqb {X} (e : X -> X -> bool) (a b : list X) : bool :=
+  match a, b with [], [] => true | x :: a', y :: b' => e x y && leqb e a' b' | _, _ => false end.
+Definition hobj : Type := (list N * list (list N))%type.
+Definition hobj_eqb (a b : hobj) : bool := str_eqb (fst a) (fst b) && leqb str_eqb (snd a) (snd b).
+Fixpoint tk_eqb (a b : tok) : bool :=
+  match a, b with TStr x, TStr y | TParen x, TParen y => str_eqb x y | TColon, TColon | TEq, TEq | TPlus, TPlus | TNl, TNl
+  | TBrOpen, TBrOpen | TBrClose, TBrClose | TComma, TComma | TOther, TOther => true | _, _ => false end.
+Definition h_known (n : list N) : bool := existsb (str_eqb n) known_names.
+(* a (name, arguments) pair that was not tabulated gives a marker no helper of the implementation equals *)
+Definition h_parse (n : list N) (a : list (list N)) : option hobj :=
+  match find (fun r => str_eqb (fst (fst r)) n && leqb str_eqb (snd (fst r)) a) hp_tab with
+  | Some r => snd r
+  | None => Some ([0], [])
+  end.
+Definition HR (ts : list tok) := head_read hobj h_known h_parse (fun n a => (n, a)) ts.
+Definition head_eqb (a b : head hobj) : bool :=
+  Bool.eqb (h_alias _ a) (h_alias _ b) && leqb str_eqb (h_bases _ a) (h_bases _ b) && leqb hobj_eqb (h_helpers _ a) (h_helpers _ b)
+  && str_eqb (h_class _ a) (h_class _ b) && str_eqb (h_desc _ a) (h_desc _ b).
+(* writer: 0 = the same tokens *)
+Definition hw (c : bool * bool * list (list N) * list hform * bool * list N * list (list N) * list tok) : N :=
+  let '(cu, al, bs, fs, hid, cl, secs, ts) := c in if leqb tk_eqb (head_toks cu al bs fs hid cl secs) ts then 0 else 1.
+(* reader: compared when the model stops where the entity loop then finds the closing bracket (what the streams end with);
+   4 = the model stopped elsewhere (a `[` in the middle): the implementation goes on reading body lines, not compared *)
+Definition hr (c : list tok * option (head hobj)) : N :=
+  match HR (fst c), snd c with
+  | None, None => 0
+  | Some (h, rest), w =>
+      match skip_nl rest with
+      | [TBrClose] | [TBrClose; TNl] => match w with Some h' => if head_eqb h h' then 0 else 1 | None => 2 end
+      | _ => 4
+      end
+  | None, Some _ => 3
+  end.
+"""
+HEAD_BASES = ['BaseEntity', 'Targetname', 'Angles', 'prop_dynamic_base', 'A', 'b2']
+HEAD_CLASSES = ['info_target', 'Func_Door', 'npc_x', 'e']
+
+
+def corr_head(ck: Ck) -> None:
+    """Fmt/FgdHead.v against the implementation.  Writers: the tokens the real Tokenizer reads from what EntityDef.export writes
+    between `@PointClass` and the `[` == head_toks (bases / aliasof, helpers of every pool entry incl. halfgridsnap, unknown and
+    extension helpers, class name, description split by _write_longstring).  Readers: EntityDef.parse(eval_bases=False) on those
+    token lists and on lists with 1-2 token mutations == head_read: alias flag, bases, helpers (type name + export() arguments),
+    class name, description, raise <-> None.  HELPER_IMPL[..].parse is tabulated for every (known name, arguments) pair a stream
+    can ask for."""
+    import warnings
+    import srctools.fgd as F
+    from srctools.fgd import HELPER_IMPL, EntityDef, EntityTypes, HelperHalfGridSnap, HelperTypes, UnknownHelper
+    from srctools.tokenizer import IterTokenizer, Token as T
+    rng = ck.rng
+    known = [h.value for h in HelperTypes]
+    cs = lambda x: '[' + ';'.join(str(ord(c)) for c in x) + ']'   # noqa: E731
+    cl = lambda xs: coq_list(cs(x) for x in xs)   # noqa: E731
+    tl = lambda ts: coq_list(('TStr ' + cs(v)) if t is T.STRING else ('TParen ' + cs(v)) if t is T.PAREN_ARGS else coq_tok(t, v) for t, v in ts)   # noqa: E731
+    hp: dict[tuple[str, tuple[str, ...]], Optional[tuple[str, list[str]]]] = {}
+
+    def hkey(h: Any) -> tuple[str, list[str]]:
+        return (h.name if isinstance(h, UnknownHelper) else h.TYPE.value, list(h.export()))
+
+    def tabulate(toks: list[tuple[Any, str]]) -> None:
+        names = {v for t, v in toks if t is T.STRING and v in known}
+        argss = {()} | {tuple(a) for a in ([x.strip() for x in v.split(',')] for t, v in toks if t is T.PAREN_ARGS)} \
+            | {() for t, v in toks if t is T.PAREN_ARGS and v.strip() == ''}
+        argss = {(() if a == ('',) else a) for a in argss}
+        for n in names:
+            for a in argss:
+                if (n, a) not in hp:
+                    try:
+                        with warnings.catch_warnings():
+                            warnings.simplefilter('ignore')
+                            hp[n, a] = hkey(HELPER_IMPL[HelperTypes(n)].parse(list(a)))
+                    except Exception:   # noqa: BLE001
+                        hp[n, a] = None
+    w_cases, r_cases = [], []
+    forms_checked, forms_bad = 0, []
+    extras = [(T.STRING, 'halfgridsnap'), (T.STRING, 'size'), (T.STRING, 'zzz'), (T.STRING, 'aliasof'), (T.STRING, 'base'), (T.PAREN_ARGS, ''),
+              (T.PAREN_ARGS, 'a, b'), (T.PAREN_ARGS, ' x '), (T.NEWLINE, '\n'), (T.EQUALS, '='), (T.COLON, ':'), (T.PLUS, '+'), (T.BRACK_OPEN, '['),
+              (T.COMMA, ','), (T.STRING, 'text')]
+    for i in range(ck.budget(40, 300)):
+        plain = i % 3 == 2
+        custom = not plain
+        e = EntityDef(EntityTypes.POINT, rng.choice(HEAD_CLASSES))
+        e.bases = rng.sample(HEAD_BASES, rng.choice([0, 0, 1, 2, 3]))
+        e.is_alias = bool(e.bases) and rng.random() < 0.3
+        for _ in range(rng.choice([0, 1, 2, 3, 5])):
+            hname, hargs = rng.choice(HELPER_POOL if rng.random() < 0.8 else EXT_HELPER_POOL + [('orderby', ['speed', 'Model'])])
+            try:
+                e.helpers.append(UnknownHelper(hname[1:], list(hargs)) if hname.startswith('@') else HELPER_IMPL[HelperTypes(hname)].parse(list(hargs)))
+            except (ValueError, TypeError, KeyError):
+                pass
+        e.desc = gen_line_text(rng, rng.choice(['empty', 'short', 'short', 'special', 'long']), plain)
+        buf = io.StringIO()
+        e.export(buf, True, custom)
+        toks = fgd_tokens(buf.getvalue())
+        cut = next(k for k, (t, _) in enumerate(toks) if t is T.BRACK_OPEN)
+        head = toks[1:cut + 1]
+        forms = []
+        for h in e.helpers:
+            if h.IS_EXTENSION and not custom:
+                continue
+            forms.append('HBare ' + cs('halfgridsnap') if isinstance(h, HelperHalfGridSnap) else 'HCall %s %s' % (cs(hkey(h)[0]), cl(h.export())))
+        # premises of c16_entity_header_roundtrip on this entity: [form_ok] for every helper, [bases_ok], a stripped class name
+        for h in e.helpers:
+            n, a = hkey(h)
+            ok_args = all(x and ',' not in x and x.strip() == x for x in a)
+            if isinstance(h, UnknownHelper):
+                ok_form = n not in known and n != 'aliasof'
+            else:
+                try:
+                    ok_form = n in known and n not in ('base', 'autovis') and hkey(HELPER_IMPL[HelperTypes(n)].parse(list(a))) == (n, a)
+                except Exception:   # noqa: BLE001
+                    ok_form = False
+            forms_checked += 1
+            if not (ok_args and ok_form):
+                forms_bad.append(f'{n}({", ".join(a)})')
+        if not (all(x and ',' not in x and x.strip() == x for x in e.bases) and len(set(e.bases)) == len(e.bases) and e.classname.strip() == e.classname):
+            forms_bad.append(f'bases {e.bases} / class {e.classname!r}')
+        secs = [v for t, v in fgd_tokens(impl_write(custom, e.desc, '\t\t') + '\n') if t is T.STRING] if e.desc else []
+        w_cases.append('(%s, %s, %s, %s, %s, %s, %s, %s)' % (coq_bool(custom), coq_bool(e.is_alias), cl(e.bases), coq_list(forms),
+                                                           coq_bool(len(forms) < len(e.helpers)), cs(e.classname), cl(secs), tl(head)))
+        ck.count('corr_head_export')
+        ck.hist('head_helpers', len(e.helpers))
+        ck.hist('head_bases', ('alias ' if e.is_alias else '') + str(len(e.bases)))
+        if len(head) > 6:
+            ck.seen(('head', buf.getvalue()[:buf.getvalue().index('\n\t[')]))
+        for mut in (0, 1, 2):
+            h2 = list(head)
+            for _ in range(mut):
+                j = rng.randrange(len(h2) + 1)
+                r = rng.random()
+                if r < 0.3 and h2:
+                    del h2[min(j, len(h2) - 1)]
+                elif r < 0.5 and len(h2) > 1:
+                    k = min(j, len(h2) - 2)
+                    h2[k], h2[k + 1] = h2[k + 1], h2[k]
+                elif r < 0.6 and h2:
+                    h2.insert(j, h2[min(j, len(h2) - 1)])
+                else:
+                    h2.insert(j, rng.choice(extras))
+            stream = h2 + [(T.NEWLINE, '\n'), (T.BRACK_CLOSE, ']')]
+            tabulate(stream)
+            fgd = F.FGD()
+            try:
+                with warnings.catch_warnings():
+                    warnings.simplefilter('ignore')
+                    EntityDef.parse(fgd, IterTokenizer(iter(stream), 'c16', F.FGDParseError), EntityTypes.POINT, eval_bases=False)
+                [ent] = fgd.entities.values()
+                if fgd.auto_visgroups:
+                    continue            # autovis is not modelled
+                want = 'Some (mk_head hobj %s %s %s %s %s)' % (
+                    coq_bool(ent.is_alias), cl(b if isinstance(b, str) else b.classname for b in ent.bases),
+                    coq_list('(%s, %s)' % (cs(n), cl(a)) for n, a in map(hkey, ent.helpers)), cs(ent.classname), cs(ent.desc))
+            except Exception:   # noqa: BLE001
+                want = 'None'
+            r_cases.append('(%s, %s)' % (tl(stream), want))
+            ck.count('corr_head_parse')
+            ck.hist('head_parse', ('mutated ' if mut else 'as written ') + ('raises' if want == 'None' else 'parsed'))
+    pre = HEAD_PRE.replace('Definition h_known', 'Definition known_names : list (list N) := %s.\nDefinition hp_tab : list (list N * list (list N) * option hobj) := %s.\nDefinition h_known' % (
+        cl(known), coq_list('(%s, %s, %s)' % (cs(n), cl(a), 'None' if v is None else 'Some (%s, %s)' % (cs(v[0]), cl(v[1])))
+                            for (n, a), v in sorted(hp.items(), key=lambda kv: (kv[0][0], kv[0][1])))), 1)
+    ck.obligation('data:header_premises_hold_for_generated_entities', not forms_bad and 'base' in known and 'aliasof' not in known,
+                  f'{forms_checked} helpers of the generated entities: HELPER_IMPL[type].parse(export()) gives the same helper, arguments and '
+                  f'base names are non-empty, stripped and without commas, no helper is called base/aliasof/autovis; HelperTypes knows '
+                  f'"base" and not "aliasof" (premises of c16_entity_header_roundtrip); failing: {forms_bad[:5]}')
+    vals = ck.coq_eval(IMPORTS, ['map hw ' + coq_list(w_cases), 'map hr ' + coq_list(r_cases)], name='head', preamble=pre, timeout=900)
+    if vals is None:
+        ck.obligation('correspondence:text_header_writer', False, 'model could not be evaluated')
+        ck.tie_broken.append('correspondence entity header: model evaluation failed')
+        return
+    wc, rc = (parse_coq_N_list(v) for v in vals)
+    wbad = [i for i, c in enumerate(wc) if c != 0]
+    rbad = [i for i, c in enumerate(rc) if c not in (0, 4)]
+    ck.obligation('correspondence:text_header_writer', not wbad and len(wc) == len(w_cases),
+                  f'EntityDef.export header: {len(wc)} cases, {len(wbad)} disagreements (tokens of the real Tokenizer == head_toks of Fmt/FgdHead.v)')
+    ck.obligation('correspondence:text_header_reader', not rbad and len(rc) == len(r_cases),
+                  f'EntityDef.parse header: {len(rc)} token lists (as written and with 1-2 mutations), {len(rbad)} disagreements, '
+                  f'{sum(1 for c in rc if c == 4)} where the model stopped elsewhere than the end of the list (not compared); '
+                  f'{len(hp)} (helper type, arguments) pairs tabulated from HELPER_IMPL')
+    if wbad or rbad:
+        ck.tie_broken.append('correspondence entity header (Fmt/FgdHead.v vs EntityDef.export/parse)')
+        which, j = ('writer', wbad[0]) if wbad else ('reader', rbad[0])
+        ck.extra['text_header_disagreement'] = {'side': which, 'code': (wc if wbad else rc)[j], 'case': (w_cases if wbad else r_cases)[j][:1500]}
+
+
 # ----------------------------------------------------------------------------------------------- binary records
 def coq_qs(x: str) -> str:
     return '"%s"%%string' % x
@@ -1032,7 +1234,7 @@ def corr_binary_records(ck: Ck, data: bytes, tb: dict) -> None:
     from srctools import _engine_db as E
     rng = ck.rng
     rows = []
-    for i in range(ck.budget(50, 600)):
+    for i in range(ck.budget(50, 450)):
         e = gen_bin_ent(rng, i)
         table: list[str] = ['']
 
@@ -1280,6 +1482,282 @@ Fixpoint tr_eqb (a b : list (N * list nat * list N)) : bool :=
         ck.extra['lazy_disagreement'] = {'queries': rows[bad[0]][0], 'impl_trace': rows[bad[0]][1]}
 
 
+# ----------------------------------------------------------------------------------------------- several databases
+MULTI_UNIVERSE = list('abcdefgh')
+
+
+def build_engine_db(blocks: list[list[str]], bases: dict[str, list[str]], marks: dict[str, str]) -> Any:
+    """A hand-built EngineDB with the real serialisers and a full shared dictionary (as synth_db): class `Syn_<x>` carries the
+    keyvalue `kv_<x>` whose default is marks[x] (so that definitions of the same class in different databases differ), alias
+    classes store the base names bases[x]."""
+    from srctools import _engine_db as E
+    from srctools.fgd import EntityDef, EntityTypes, KVDef, ValueTypes
+    ents: dict[str, Any] = {}
+    for b in blocks:
+        for cn in b:
+            e = EntityDef(EntityTypes.POINT, 'Syn_' + cn, is_alias=cn in bases)
+            e.bases = ['Syn_' + x for x in bases.get(cn, [])]
+            e.keyvalues['kv_' + cn] = {frozenset(): KVDef('kv_' + cn, ValueTypes.INT, 'Disp ' + cn, marks[cn])}
+            ents[cn] = e
+    shared = sorted(['', 'Disp a'] + [f'shared{i:03d}' for i in range(E.SHARED_STRINGS - 2)])
+    base_dict = E.BinStrDict(shared, None)
+    unparsed, ent_map = [], {}
+    for bi, b in enumerate(blocks):
+        need: set[str] = set()
+        for cn in b:
+            E.ent_serialise(ents[cn], io.BytesIO(), lambda x, need=need: (need.add(x), b'\0\0')[1])
+        d = E.BinStrDict(need - set(shared), base_dict)
+        f = io.BytesIO()
+        d.serialise(f)
+        for cn in b:
+            E.ent_serialise(ents[cn], f, d)
+            ent_map[('Syn_' + cn).casefold()] = bi
+        unparsed.append((['Syn_' + cn for cn in b], f.getvalue()))
+    ent_map['_cbaseentity_'] = EntityDef(EntityTypes.BASE, '_CBaseEntity_')
+    return E.EngineDB(ent_map, shared, unparsed)
+
+
+def gen_multi_scenario(rng: random.Random) -> dict:
+    """2-3 databases over one small universe of class names (so that the same class is usually defined by several of them), each
+    with 1-3 blocks and alias classes whose bases live in the SAME database (other blocks included; cycles allowed), plus a
+    history of engine_def() queries (unknown names included) with FGD.engine_dbase() calls in between."""
+    dbs = []
+    for di in range(rng.choice([2, 2, 3])):
+        cls = rng.sample(MULTI_UNIVERSE, rng.randint(2, 5))
+        nb = rng.randint(1, min(3, len(cls)))
+        blocks: list[list[str]] = [[] for _ in range(nb)]
+        for i, cn in enumerate(cls):
+            blocks[i if i < nb else rng.randrange(nb)].append(cn)
+        bases = {}
+        for cn in cls:
+            if rng.random() < 0.35:
+                bases[cn] = [rng.choice([x for x in cls if x != cn])]
+        dbs.append(dict(blocks=blocks, bases=bases, marks={cn: str(100 * (di + 1) + MULTI_UNIVERSE.index(cn) + 1) for cn in cls}))
+    ops: list[Any] = []
+    for _ in range(rng.randint(2, 9)):
+        r = rng.random()
+        if r < 0.12:
+            ops.append(None)                                   # FGD.engine_dbase()
+        elif r < 0.2:
+            ops.append('Syn_zz')
+        else:
+            ops.append('Syn_' + rng.choice(MULTI_UNIVERSE))
+    ops.append(None)
+    return dict(dbs=dbs, ops=ops)
+
+
+def multi_expected(sc: dict, cn: str) -> Optional[tuple[str, list[str]]]:
+    """What the property promises for class `Syn_<cn>`: the definition in the first database of the list that has the class,
+    with the bases of THAT database: (mark, marks of the bases)."""
+    for d in sc['dbs']:
+        if cn in d['marks']:
+            return d['marks'][cn], [d['marks'].get(b, '?') for b in d['bases'].get(cn, [])]
+    return None
+
+
+def multi_observe(ent: Any) -> tuple[str, list[str]]:
+    """(mark, marks of the resolved bases; '' for a base left as a name) of a definition returned by the implementation."""
+    cn = ent.classname[4:]
+    kv = ent.keyvalues.get('kv_' + cn.casefold(), {}).get(frozenset())
+    out = []
+    for b in ent.bases:
+        if isinstance(b, str):
+            out.append('')
+        elif b.classname != '_CBaseEntity_':
+            bk = b.keyvalues.get('kv_' + b.classname[4:].casefold(), {}).get(frozenset())
+            out.append(bk.default if bk is not None else '?')
+    return (kv.default if kv is not None else '?'), out
+
+
+ENGINE_DB_LOCK = threading.RLock()      # srctools.fgd._ENGINE_DB is process-wide: one user at a time (tie stages run beside the searches)
+
+
+@contextlib.contextmanager
+def engine_db_list(dbs: Optional[list]):
+    """Run with srctools.fgd._ENGINE_DB replaced (None = not loaded yet); always restored."""
+    from srctools import fgd as F
+    with ENGINE_DB_LOCK:
+        old = F._ENGINE_DB
+        F._ENGINE_DB = dbs
+        try:
+            yield
+        finally:
+            F._ENGINE_DB = old
+
+
+def run_multi_impl(sc: dict) -> dict:
+    """Run the history on the real EntityDef.engine_def / FGD.engine_dbase over hand-built databases.  Returns per operation the
+    observation and the decoded blocks of every database."""
+    from srctools.fgd import EntityDef, FGD
+    dbs = [build_engine_db(d['blocks'], d['bases'], d['marks']) for d in sc['dbs']]
+    steps = []
+    with engine_db_list(dbs):
+        for op in sc['ops']:
+            if op is None:
+                whole = FGD.engine_dbase()
+                obs: Any = {k[4:]: multi_observe(e) for k, e in whole.entities.items() if k != '_cbaseentity_'}
+            else:
+                try:
+                    obs = multi_observe(EntityDef.engine_def(op.upper() if len(steps) % 5 == 4 else op))
+                except KeyError:
+                    obs = None
+            steps.append((op, obs, [[i for i, (_, blob) in enumerate(db.unparsed) if not blob] for db in dbs]))
+    return dict(steps=steps)
+
+
+def check_multi_scenario(sc: dict) -> list[tuple[str, str]]:
+    """[(violation key, text)] of one history."""
+    out = []
+    try:
+        res = run_multi_impl(sc)
+    except RecursionError:
+        return [('lazy-base-lookups-do-not-terminate', 'engine_def / engine_dbase over several hand-built databases recurses without end')]
+    except Exception as ex:   # noqa: BLE001
+        return [('lazy-multi-db-raises:' + type(ex).__name__, f'engine_def / engine_dbase over several hand-built databases raises {ex!r}')]
+    for i, (op, obs, _) in enumerate(res['steps']):
+        before = [o if o is not None else 'engine_dbase()' for o, _, _ in res['steps'][:i]]
+        if op is None:
+            for cn in MULTI_UNIVERSE:
+                want = multi_expected(sc, cn)
+                got = obs.get(cn)
+                if got != want:
+                    which = [j for j, d in enumerate(sc['dbs']) if cn in d['marks']]
+                    if got is not None and want is not None and len(which) > 1 and got[0] == sc['dbs'][which[-1]]['marks'][cn]:
+                        out.append(('lazy-multi-db-whole-database-has-later-definition',
+                                    f'FGD.engine_dbase()[Syn_{cn}] is the definition of database {which[-1]} of the list (mark {got[0]}), '
+                                    f'EntityDef.engine_def answers with database {which[0]} (mark {want[0]}); after {before}'))
+                    else:
+                        out.append(('lazy-multi-db-whole-database-differs', f'FGD.engine_dbase()[Syn_{cn}] = {got}, the first database that '
+                                    f'defines the class says {want}; after {before}'))
+        else:
+            want = multi_expected(sc, op[4:])
+            if obs != want:
+                if obs is not None and '' in obs[1]:
+                    out.append(('lazy-base-unresolved', f'engine_def({op!r}) over {len(sc["dbs"])} databases returned a definition with a '
+                                f'base left as a name; after {before}'))
+                else:
+                    out.append(('lazy-multi-db-lookup-differs', f'engine_def({op!r}) = {obs}, the first database that defines the class '
+                                f'says {want}; after {before}'))
+    return out
+
+
+def shrink_multi(sc: dict, key: str) -> dict:
+    """Drop operations, classes and aliases while the same violation remains."""
+    import copy
+
+    def bad(x: dict) -> bool:
+        return any(k == key for k, _ in check_multi_scenario(x))
+    cur = sc
+    changed = True
+    while changed:
+        changed = False
+        for i in range(len(cur['ops']) - 1, -1, -1):
+            t = copy.deepcopy(cur)
+            del t['ops'][i]
+            if t['ops'] and bad(t):
+                cur, changed = t, True
+        for di in range(len(cur['dbs'])):
+            for cn in list(cur['dbs'][di]['marks']):
+                t = copy.deepcopy(cur)
+                td = t['dbs'][di]
+                if sum(len(b) for b in td['blocks']) <= 1 or any(cn in v for v in td['bases'].values()):
+                    continue
+                td['blocks'] = [b for b in ([x for x in b if x != cn] for b in td['blocks']) if b]
+                td['marks'].pop(cn)
+                td['bases'].pop(cn, None)
+                if bad(t):
+                    cur, changed = t, True
+            for cn in list(cur['dbs'][di]['bases']):
+                t = copy.deepcopy(cur)
+                t['dbs'][di]['bases'].pop(cn)
+                if bad(t):
+                    cur, changed = t, True
+    return cur
+
+
+MULTI_PRE = '''
+Definition ent0 : Type := (N * list N)%type.
+Definition mdec (tbl : list (N * list N)) (cs : list N) (data : N) : list ent0 :=
+  map (fun c => let k := c + 100 * (data / 100) in (k, map (fun b => b mod 100) (match find (fun p => fst p =? k) tbl with Some p => snd p | None => [] end))) cs.
+Definition summ (x : option (ent0 * list (option ent0))) : N * list N :=
+  match x with Some (e, rb) => (fst e, map (fun o => match o with Some b => fst b | None => 0 end) rb) | None => (0, []) end.
+Definition FUEL := 4%nat.
+Fixpoint mtrace (tbl : list (N * list N)) (ds : list (db N ent0 N)) (qs : list N) : list ((N * list N) * list (list nat)) :=
+  match qs with [] => [] | c :: r =>
+    let '(x, ds') := engine_def N ent0 N N.eqb (mdec tbl) (fun e => snd e) (N.eqb 0) 0 lazy_via_get_ent FUEL ds c in
+    (summ x, map (parsed_blocks N ent0 N (N.eqb 0)) ds') :: mtrace tbl ds' r end.
+Fixpoint nn_eqb (a b : list (list nat)) : bool :=
+  match a, b with [], [] => true | x :: a', y :: b' => nlist_eqb (map N.of_nat x) (map N.of_nat y) && nn_eqb a' b' | _, _ => false end.
+Fixpoint mtr_eqb (a b : list ((N * list N) * list (list nat))) : bool :=
+  match a, b with [], [] => true | (x, l) :: a', (y, m) :: b' => (fst x =? fst y) && nlist_eqb (snd x) (snd y) && nn_eqb l m && mtr_eqb a' b' | _, _ => false end.
+Fixpoint wh_eqb (a b : list (N * list N)) : bool :=
+  match a, b with [], [] => true | (x, p) :: a', (y, q) :: b' => (x =? y) && nlist_eqb p q && wh_eqb a' b' | _, _ => false end.
+Definition mcase (c : list (N * list N) * list (list (list N * N)) * list N * list ((N * list N) * list (list nat)) * list (N * list N)) : bool :=
+  let '(tbl, files, qs, tr, wh) := c in
+  mtr_eqb (mtrace tbl (map (init N ent0 N) files) qs) tr
+  && wh_eqb (map (fun c => summ (engine_dbase N ent0 N N.eqb (mdec tbl) (fun e => snd e) (N.eqb 0) 0 lazy_via_get_ent engine_dbase_merge FUEL files c))
+                 [1; 2; 3; 4; 5; 6; 7; 8]) wh.
+'''
+
+
+def corr_multi(ck: Ck, via: bool, merge_first: bool) -> None:
+    """EntityDef.engine_def histories and the final FGD.engine_dbase() over lists of hand-built databases vs SM/LazyDbMulti.v
+    engine_def / engine_dbase, the model in the modes read from the source."""
+    rng = ck.rng
+    rows = []
+    for _ in range(ck.budget(40, 300)):
+        sc = gen_multi_scenario(rng)
+        sc['ops'] = [o for o in sc['ops'] if o is not None] + [None]          # queries, then the whole database once
+        try:
+            res = run_multi_impl(sc)
+        except Exception as ex:   # noqa: BLE001
+            ck.notes.append(f'corr_multi: implementation raised {ex!r} on {sc}')
+            rows.append((sc, None))
+            continue
+        rows.append((sc, res))
+        ck.count('corr_multi_histories')
+        ck.hist('multi_databases', len(sc['dbs']))
+        ck.hist('multi_classes_in_both_first_databases', len(set(sc['dbs'][0]['marks']) & set(sc['dbs'][1]['marks'])))
+        if len(sc['ops']) > 2:
+            ck.seen(('multicorr', repr(sc)))
+    ident = {cn: i + 1 for i, cn in enumerate(MULTI_UNIVERSE)}
+
+    def nm(x: str) -> int:
+        return int(x) if x.isdigit() else 0
+    lits = []
+    for sc, res in rows:
+        tbl = coq_list('(%d, [%s])' % (int(d['marks'][cn]), ';'.join(str(int(d['marks'][b])) for b in bs if b in d['marks']))
+                       for d in sc['dbs'] for cn, bs in sorted(d['bases'].items()))
+        files = coq_list(coq_list('([%s], %d)' % (';'.join(str(ident[cn]) for cn in b), 100 * (di + 1) + bi + 1) for bi, b in enumerate(d['blocks']))
+                         for di, d in enumerate(sc['dbs']))
+        qs = [ident.get(o[4:], 0) for o in sc['ops'] if o is not None]
+        if res is None:
+            lits.append(f'({tbl}, {files}, {coq_N(qs)}, [], [])')
+            continue
+        tr = coq_list('((%d, [%s]), %s)' % (nm(obs[0]) if obs else 0, ';'.join(str(nm(x)) for x in (obs[1] if obs else [])),
+                                                coq_list('[%s]%%nat' % ';'.join(map(str, pb)) for pb in parsed))
+                      for op, obs, parsed in res['steps'] if op is not None)
+        whole = res['steps'][-1][1]
+        wh = coq_list('(%d, [%s])' % (nm(whole[cn][0]) if cn in whole else 0, ';'.join(str(nm(x)) for x in (whole[cn][1] if cn in whole else [])))
+                      for cn in MULTI_UNIVERSE)
+        lits.append(f'({tbl}, {files}, {coq_N(qs)}, {tr}, {wh})')
+    vals = ck.coq_eval(IMPORTS, [f'bad_idx mcase 0 {coq_list(lits)}'], name='multi', preamble=PRE + MULTI_PRE, timeout=900)
+    if vals is None:
+        ck.obligation('correspondence:multi_db', False, 'model could not be evaluated')
+        ck.tie_broken.append('correspondence several engine databases: model evaluation failed')
+        return
+    bad = parse_coq_N_list(vals[0])
+    ck.obligation('correspondence:multi_db', not bad,
+                  f'{len(rows)} histories of EntityDef.engine_def over 2-3 hand-built databases that define the same class names (real '
+                  f'serialisers): answer, what its stored base names were replaced by and the decoded blocks of every database after every '
+                  f'query, then FGD.engine_dbase() for every class, vs SM/LazyDbMulti.v engine_def / engine_dbase (bases resolved '
+                  f'{"through get_ent" if via else "by a look-up in ent_map"}, merge keeps the {"first" if merge_first else "last"} definition, '
+                  f'as read from the source): {len(bad)} disagreements')
+    if bad:
+        ck.tie_broken.append('correspondence EntityDef.engine_def / FGD.engine_dbase (SM/LazyDbMulti.v)')
+        ck.extra['multi_disagreement'] = {'scenario': rows[bad[0]][0], 'impl': rows[bad[0]][1]}
+
+
 # =============================================================================================== canonical definitions
 def canon_attr(v: Any, io_kind: bool, choice_norm: bool = True) -> tuple:
     from srctools.fgd import VALUE_TO_IO_DECAY, KVDef, ValueTypes
@@ -1455,7 +1933,8 @@ def locate_db_failure(fgd: Any, opts: dict) -> tuple[str, dict]:
 
 def search_bundled(ck: Ck) -> None:
     from srctools.fgd import FGD
-    fgd = FGD.engine_dbase()
+    with ENGINE_DB_LOCK:
+        fgd = FGD.engine_dbase()
     ck.extra['bundled_entities'] = len(fgd.entities)
     # quick tier: both syntaxes, once with and once without spawnflag labels; all four combinations in the thorough tier
     # and as soon as any tie is broken
@@ -1791,6 +2270,48 @@ def search_binary(ck: Ck, data: bytes) -> None:
             ck.seen(('binent', i))
 
 
+def search_binary_small(ck: Ck, names: list[str]) -> None:
+    """Whole-database round trip of SMALL generated engine-format FGDs (about 22 classes): serialise -> unserialise -> get_fgd keeps every
+    class and every definition.  Small databases exercise build_blocks differently from the bundled one: entities that no overlapping
+    pair placed go to the overflow blocks."""
+    from srctools import _engine_db as E
+    rng = ck.rng
+    lost_reported = False
+    for i in range(ck.budget(8, 80)):
+        ofgd, want = make_override_fgd(rng, names)
+        buf = io.BytesIO()
+        try:
+            with contextlib.redirect_stdout(io.StringIO()):
+                E.serialise(ofgd, buf)
+            back = E.unserialise(io.BytesIO(buf.getvalue()))
+            known = set(back.get_classnames())
+        except Exception as ex:   # noqa: BLE001
+            ck.violation('binary-serialise-raises', f'serialise/unserialise of a generated {len(want)}-class database raises {type(ex).__name__}: {ex}',
+                         {'kind': 'binary'})
+            continue
+        ck.count('search_binary_small_databases')
+        ck.seen(('binsmall', i, len(buf.getvalue())))
+        missing = sorted(set(want) - known)
+        if missing and not lost_reported:
+            lost_reported = True
+            ck.violation('binary-database-loses-entities', f'serialise() of a generated database with {len(want)} classes writes only '
+                         f'{len(known) - 1}: {missing} are not in the file (unserialise().get_classnames())',
+                         {'kind': 'binary_small', 'classes': sorted(want), 'missing': missing})
+        if missing:
+            continue
+        try:
+            f2 = back.get_fgd()
+        except Exception as ex:   # noqa: BLE001
+            ck.violation('binary-unserialise-raises', f'get_fgd() of a generated {len(want)}-class database raises {type(ex).__name__}: {ex}', {'kind': 'binary'})
+            continue
+        for k, c in want.items():
+            d = diff_fields(c, multi_canon(f2.entities[k]))
+            if d:
+                ck.violation('binary-roundtrip-changed:' + '+'.join(d), f'{k} of a generated database differs in {d} after serialise -> unserialise',
+                             {'kind': 'binary', 'field': d, 'entities': [k]})
+                break
+
+
 def search_lazy(ck: Ck, data: bytes, tb: dict) -> None:
     """engine_def-style look-ups in random orders on fresh databases vs the fully loaded database."""
     import copy
@@ -1839,12 +2360,13 @@ def search_lazy(ck: Ck, data: bytes, tb: dict) -> None:
         ck.hist('lazy_round_len', len(order))
     # public API once: EntityDef.engine_def / FGD.engine_dbase on the process-wide cache
     from srctools.fgd import EntityDef, FGD
-    for q in rng.sample(names, 40) + alias_names[:5]:
-        if canon_ent(EntityDef.engine_def(q)) != eager[q]:
-            ck.violation('lazy-differs-from-eager:engine_def', f'EntityDef.engine_def({q!r}) differs from FGD.engine_dbase()',
-                         {'kind': 'lazy', 'query': q})
-        ck.count('search_lazy_lookups')
-    full = FGD.engine_dbase()
+    with ENGINE_DB_LOCK:
+        for q in rng.sample(names, 40) + alias_names[:5]:
+            if canon_ent(EntityDef.engine_def(q)) != eager[q]:
+                ck.violation('lazy-differs-from-eager:engine_def', f'EntityDef.engine_def({q!r}) differs from FGD.engine_dbase()',
+                             {'kind': 'lazy', 'query': q})
+            ck.count('search_lazy_lookups')
+        full = FGD.engine_dbase()
     bad = [k for k, e in full.entities.items() if canon_ent(e) != eager.get(k)]
     if bad:
         ck.violation('lazy-engine-dbase-after-lookups', f'FGD.engine_dbase() after individual look-ups differs for {bad[:5]}', {'kind': 'lazy', 'entities': bad[:10]})
@@ -1936,7 +2458,290 @@ def search_lazy_synthetic(ck: Ck) -> None:
         del state
 
 
+def make_override_fgd(rng: random.Random, bundled_names: list[str]) -> tuple[Any, dict[str, Any]]:
+    """An engine-format FGD for add_engine_database(): `_CBaseEntity_`, redefinitions of a few classes of the bundled database, new
+    classes and aliases of classes of the same FGD; enough distinct strings for serialise() (it needs SHARED_STRINGS shared ones).
+    Returns the FGD and the canonical form of every definition (what engine_def / engine_dbase must give back)."""
+    from srctools import _engine_db as E
+    from srctools.fgd import FGD, EntityDef, EntityTypes, IODef, KVDef, ValueTypes
+    fgd = FGD()
+    fgd.entities['_cbaseentity_'] = EntityDef(EntityTypes.BASE, '_CBaseEntity_')
+    redefined = rng.sample(bundled_names, 4)
+    names = redefined + [f'mod_new_{i}' for i in range(14)]
+    plain_types = [t for t in ValueTypes if t not in (ValueTypes.CHOICES, ValueTypes.SPAWNFLAGS)]
+    n_kv = E.SHARED_STRINGS // len(names) + 4
+    for i, cn in enumerate(names):
+        e = EntityDef(EntityTypes.POINT, cn)
+        for j in range(n_kv):
+            nm = f'mod_kv_{i}_{j}'
+            e.keyvalues[nm] = {frozenset(): KVDef(nm, rng.choice(plain_types), f'Mod display {i} {j}', str(rng.randint(0, 99)))}
+        e.inputs['modin'] = {frozenset(): IODef('ModIn', ValueTypes.VOID)}
+        fgd.entities[cn.casefold()] = e
+    for i in range(3):                                     # aliases inside the added database (one of a redefined class)
+        tgt = [redefined[0], 'mod_new_0', 'mod_new_1'][i]
+        a = EntityDef(EntityTypes.POINT, f'mod_alias_{i}', is_alias=True)
+        a.bases = [tgt]
+        fgd.entities[a.classname] = a
+    return fgd, {k: multi_canon(e) for k, e in fgd.entities.items() if k != '_cbaseentity_'}
+
+
+def multi_canon(e: Any) -> dict:
+    """engine_canon without the implicit `_CBaseEntity_` base, keyvalues by name, resources () == None."""
+    c = engine_canon(e)
+    c['bases'] = [b for b in c['bases'] if b != '_CBaseEntity_']
+    c['keyvalues'] = sorted(c['keyvalues'], key=repr)
+    c['resources'] = c['resources'] or None
+    return c
+
+
+def added_database_rng(seed: int) -> random.Random:
+    return random.Random(seed * 1000 + 16)
+
+
+def search_multi_db(ck: Ck, data: bytes, tb: dict) -> None:
+    """Several engine databases.  (1) hand-built lists of 2-3 small databases that define the same class names: random histories of
+    EntityDef.engine_def and FGD.engine_dbase against what the first database of the list says.  (2) the public path: a generated
+    FGD written by the real serialise() to a file, add_engine_database(file) in front of the bundled database, look-ups in a random
+    order, then the whole database."""
+    rng = ck.rng
+    reported: set[str] = set()
+    for i in range(ck.budget(60, 800)):
+        sc = gen_multi_scenario(rng)
+        ck.count('search_multi_db_histories')
+        ck.hist('multi_history_ops', len(sc['ops']))
+        if len(sc['ops']) > 2:
+            ck.seen(('multidb', repr(sc)))
+        for key, text in check_multi_scenario(sc):
+            if key in reported:
+                continue
+            reported.add(key)
+            small = shrink_multi(sc, key)
+            text = next((t for k, t in check_multi_scenario(small) if k == key), text)
+            ck.violation(key, text + f' [databases, first = front of the list: {small["dbs"]}]', {'kind': 'multi_db', 'scenario': small})
+    # ---- (2) serialise -> file -> add_engine_database in front of the bundled database
+    for key, text, rep in check_added_database(ck, tb['names'], ck.seed, ck.budget(40, 400)):
+        ck.violation(key, text, rep)
+    ck.seen(('multidb-file', ck.seed))
+
+
+def check_added_database(ck: Optional[Ck], names: list[str], seed: int, n_bundled: int) -> list[tuple[str, str, dict]]:
+    from srctools import _engine_db as E
+    from srctools import fgd as F
+    rng = added_database_rng(seed)
+    out: list[tuple[str, str, dict]] = []
+    scratch = ck.scratch if ck is not None else __import__('pathlib').Path(__import__('tempfile').mkdtemp(prefix='sv_C16_replay_', dir='/var/tmp'))
+    try:
+        ofgd, want = make_override_fgd(rng, names)
+        path = scratch / 'c16_added_database.bin'
+        with open(path, 'wb') as f, contextlib.redirect_stdout(io.StringIO()):
+            E.serialise(ofgd, f)
+    except Exception as ex:   # noqa: BLE001
+        return [('binary-serialise-raises', f'serialise(generated engine-format FGD) raises {type(ex).__name__}: {ex}', {'kind': 'binary'})]
+    known = set(names)
+    replay = {'kind': 'added_database', 'seed': seed, 'n_bundled': n_bundled, 'redefined': [k for k in want if k in known]}
+    with engine_db_list(None):
+        try:
+            F.add_engine_database(path)
+            order = list(want) + rng.sample(names, n_bundled)
+            rng.shuffle(order)
+            first: dict[str, dict] = {}
+            for q in order:
+                first[q] = multi_canon(F.EntityDef.engine_def(q))
+                if ck is not None:
+                    ck.count('search_multi_db_lookups')
+            whole = F.FGD.engine_dbase()
+            classes = F.EntityDef.engine_classes()
+        except Exception as ex:   # noqa: BLE001
+            return [('lazy-multi-db-raises:' + type(ex).__name__, f'add_engine_database(file) + engine_def/engine_dbase raises {ex!r}', replay)]
+        later = [q for q in order if q in want and multi_canon(whole.entities[q]) != first[q]]
+        if later:
+            out.append(('lazy-multi-db-whole-database-has-later-definition' if all(q in known for q in later) else 'lazy-multi-db-whole-database-differs',
+                f'after add_engine_database(): FGD.engine_dbase() and EntityDef.engine_def() give different definitions for {later[:4]} '
+                f'(classes that the added database redefines: {replay["redefined"]})', dict(replay, entities=later[:6])))
+        wrong = [q for q in want if diff_fields(want[q], first[q])]
+        if wrong:
+            out.append(('lazy-multi-db-lookup-differs', f'after add_engine_database(): engine_def() does not return the added definition of '
+                        f'{wrong[:4]} (fields {diff_fields(want[wrong[0]], first[wrong[0]])})', dict(replay, entities=wrong[:6])))
+        other = [q for q in order if q not in want and multi_canon(whole.entities[q]) != first[q]]
+        if other:
+            out.append(('lazy-multi-db-whole-database-differs', f'after add_engine_database(): engine_dbase() and engine_def() differ for '
+                        f'classes only the bundled database defines: {other[:4]}', dict(replay, entities=other[:6])))
+        if set(classes) != set(whole.entities):
+            out.append(('lazy-multi-db-classnames-differ', 'engine_classes() is not the key set of engine_dbase().entities: '
+                        f'{sorted(set(classes) ^ set(whole.entities))[:6]}', replay))
+    return out
+
+
 # =============================================================================================== main
+def timed(label: str, fn: Callable[..., Any], *args: Any) -> Any:
+    """Run one stage; with C16_TIMING set, print its wall time to stderr (information only, never part of a result)."""
+    t0 = time.time()
+    try:
+        return fn(*args)
+    finally:
+        if os.environ.get('C16_TIMING'):
+            print(f'[C16 timing] {label}: {time.time() - t0:.1f}s', file=sys.stderr)
+
+
+INSTANCE_OBLIGATIONS = {
+    'escape_table_invertible': 'table_ok esc_pairs esc_excluded',
+    'longstring_limits_sane': 'limits_ok',
+    'longstring_empty_text_written_as_quotes': 'empty_quotes gen_cfg',
+    'longstring_hard_cut_never_strands_backslash': 'cut_guard gen_cfg',
+    'longstring_cfg_ok_is_these': 'cfg_ok_is_parts',
+    'longstring_loop_test_is_gt': 'op_is_gt ls_loop_op',
+    'longstring_newline_threshold_is_gt': 'op_is_gt ls_nl_op',
+    'longstring_newline_needle': 'needle1_ok',
+    'longstring_space_needle': 'needle2_ok',
+    'longstring_joiner': 'joiner_ok',
+    'plain_escape_replacements': 'std_repl_matches',
+    'unguarded_hard_cut_is_refuted': 'hard_cut_breaks',
+    'value_type_order_covers_enum': 'order_ok value_type_order value_types_all',
+    'file_type_order_covers_enum': 'order_ok file_type_order file_types_all',
+    'entflags_layout': 'entflags_layout_ok',
+    'entity_types_have_distinct_flags': 'entity_flags_distinct',
+    'bit_literals_are_128_127': 'bit_literals_ok',
+    'index_formats': 'index_formats_ok',
+    'shared_strings_fit_u16': 'N.ltb shared_strings 65536',
+    'binary_tables_fit_the_record_model': 'bin_tables_ok',
+    'binary_header_formats': 'header_formats_ok',
+    'binary_layout_kv_serialise': 'layout_kv_writer_ok',
+    'binary_layout_kv_unserialise': 'layout_kv_reader_ok',
+    'binary_layout_iodef': 'layout_io_ok',
+    'binary_layout_ent_serialise': 'layout_ent_writer_ok',
+    'binary_layout_ent_unserialise': 'layout_ent_reader_ok',
+    'text_kv_two_colons_before_description_without_default': '(colons_before_desc_without_default gen_line_cfg =? 2)%nat',
+    'text_kv_one_colon_between_default_and_description': '(kv_colons_after_default =? 1)%nat',
+    'text_bool_default_written_as_0': 'bool_default_filled gen_line_cfg',
+    'text_resources_block_written_when_defined': 'res_block_if_defined gen_line_cfg',
+    'text_line_cfg_ok_is_these': 'Bool.eqb (line_cfg_ok gen_line_cfg) ((colons_before_desc_without_default gen_line_cfg =? 2)%nat '
+                                 '&& bool_default_filled gen_line_cfg && res_block_if_defined gen_line_cfg)',
+    'text_empty_resources_need_the_block': 'empty_resources_need_block',
+    'lazy_bases_resolved_through_get_ent': 'lazy_via_get_ent',
+    'lazy_map_lookup_is_refuted': 'map_lookup_breaks',
+    'multi_db_engine_dbase_keeps_first_definition': 'merge_is_first engine_dbase_merge',
+    'multi_db_engine_def_returns_first_hit': 'engine_def_returns_first_hit',
+    'multi_db_modes_agree_is_these': 'Bool.eqb multi_modes_agree (merge_is_first engine_dbase_merge && engine_def_returns_first_hit)',
+    'multi_db_overwriting_merge_is_refuted': 'overwrite_merge_breaks',
+}
+
+
+class StageCk:
+    """What one tie stage (instance obligations, Print Assumptions, a correspondence) sees of the Ck while the stages run side by
+    side (each spends most of its time waiting for its own coqc process).  Everything a stage records is buffered here and merged
+    into the real Ck in the fixed order of the stage list, so that neither the recorded order nor any count depends on timing; the
+    stage draws from its OWN random stream (seed, stage name), and its budgets look only at the ties that were already broken when
+    the stages were started (translator/build), never at what a neighbour finds meanwhile."""
+
+    def __init__(self, ck: Ck, name: str) -> None:
+        self._ck, self.name = ck, name
+        self.rng = random.Random(f'{ck.seed}:{name}')
+        self._ties_before = bool(ck.tie_broken)
+        self.obligations: list[dict] = []
+        self.tie_broken: list[str] = []
+        self.notes: list[str] = []
+        self.extra: dict[str, Any] = {}
+        self.axioms: dict[str, list[str]] = {}
+        self._log: list[tuple] = []
+        self.error: Optional[BaseException] = None
+
+    def __getattr__(self, attr: str) -> Any:            # seed, tier, thorough, scratch, ...
+        return getattr(self._ck, attr)
+
+    def budget(self, quick: int, thorough: int) -> int:
+        return thorough if (self._ck.thorough or self._ties_before) else quick
+
+    def obligation(self, name: str, ok: bool, detail: str = '') -> None:
+        self.obligations.append({'name': name, 'ok': bool(ok), 'detail': detail[:4000]})
+
+    def count(self, key: str, n: int = 1) -> None:
+        self._log.append(('count', key, n))
+
+    def hist(self, group: str, key: Any, n: int = 1) -> None:
+        self._log.append(('hist', group, key, n))
+
+    def seen(self, case_key: Any) -> None:
+        self._log.append(('seen', case_key))
+
+    def sample(self, obj: Any, cap: int = 8) -> None:
+        self._log.append(('sample', obj, cap))
+
+    def violation(self, key: str, what: str, replay: Any, no_input: bool = False) -> None:
+        self._log.append(('violation', key, what, replay, no_input))
+
+    # harness methods that record through `self`: run them with this object as `self`
+    def coq_eval(self, *a: Any, **k: Any) -> Any:
+        return Ck.coq_eval(self, *a, **k)          # type: ignore[arg-type]
+
+    def coq_scratch(self, *a: Any, **k: Any) -> Any:
+        return Ck.coq_scratch(self._ck, *a, **k)
+
+    def instance_obligations(self, *a: Any, **k: Any) -> Any:
+        return Ck.instance_obligations(self, *a, **k)   # type: ignore[arg-type]
+
+    def theorems(self, *a: Any, **k: Any) -> Any:
+        return Ck.theorems(self, *a, **k)          # type: ignore[arg-type]
+
+    def merge(self) -> None:
+        ck = self._ck
+        ck.obligations.extend(self.obligations)
+        ck.tie_broken.extend(self.tie_broken)
+        ck.notes.extend(self.notes)
+        ck.axioms.update(self.axioms)
+        for k, v in self.extra.items():
+            ck.extra[k] = v
+        for ev in self._log:
+            getattr(ck, ev[0])(*ev[1:])
+
+
+def theorems_part(c: Any, part: int, nparts: int) -> None:
+    """Ck.theorems('Props/C16.v') for every nparts-th theorem starting at `part` (Print Assumptions walks the whole proof of each
+    theorem: about 0.7 s each, so the list is shared between the lanes).  Same records as Ck.theorems: obligation `theorem:<name>`
+    and the axioms of each."""
+    import re
+    from harness.common import ROCQ, _split_assumptions
+    names = re.findall(r'^\s*(?:Theorem|Lemma|Corollary)\s+([A-Za-z0-9_\']+)', (ROCQ / 'Props/C16.v').read_text(), re.M)[part::nparts]
+    body = 'Require Import SV.Props.C16.\n' + ''.join(f'Print Assumptions {n}.\n' for n in names)
+    rc, out = c.coq_scratch(body, f'assumptions{part}')
+    if rc != 0:
+        c.obligation(f'assumptions:Props/C16.v:{part}', False, out[-2000:])
+        c.tie_broken.append('Print Assumptions failed for Props/C16.v')
+        return
+    for n, b in zip(names, _split_assumptions(out, len(names))):
+        c.axioms[n] = b
+        c.obligation(f'theorem:{n}', True, 'Qed; axioms: ' + ('none (closed under the global context)' if not b else ', '.join(b)))
+
+
+def run_stages(ck: Ck, lanes: list[list[tuple[str, Callable[..., Any], tuple]]]) -> Callable[[], bool]:
+    """Start one thread per lane; a lane runs its stages one after the other.  Returns a function that waits for all of them, merges
+    what the stages recorded in the order of the lists (lane by lane) and says whether any of them broke a tie."""
+    import threading
+    boxes = [[StageCk(ck, name) for name, _, _ in lane] for lane in lanes]
+
+    def work(lane: list[tuple[str, Callable[..., Any], tuple]], bxs: list[StageCk]) -> None:
+        for (_, fn, args), box in zip(lane, bxs):
+            try:
+                timed(box.name, fn, box, *args)
+            except BaseException as e:   # noqa: BLE001
+                box.error = e
+                return
+    threads = [threading.Thread(target=work, args=(lane, bxs), name=f'c16-lane{i}') for i, (lane, bxs) in enumerate(zip(lanes, boxes))]
+    for t in threads:
+        t.start()
+
+    def join() -> bool:
+        for t in threads:
+            t.join()
+        flat = [box for bxs in boxes for box in bxs]
+        for box in flat:
+            box.merge()
+        for box in flat:
+            if box.error is not None:
+                raise box.error
+        return any(box.tie_broken for box in flat)
+    return join
+
+
 def run(ck: Ck) -> None:
     ck.rule = ('long strings: texts built from words, escapes and runs without spaces with lengths around multiples of LIMIT and an '
                'escape placed at the cut, distinct by (syntax, text), non-trivial = needs escaping or splitting; generated FGDs: 1-4 '
@@ -1946,11 +2751,17 @@ def run(ck: Ck) -> None:
                'lines: generated keyvalue / IO lines and @resources blocks (every value type, tags, long strings rare) as token lists, each also '
                'with 1-2 random token mutations, non-trivial = more than 6 tokens; lazy: random permutations/samples of classes (aliases '
                'always included, cross-block aliases first) on fresh databases and hand-built databases with cross-block alias chains, '
-               'cycles and fans, non-trivial = more than one query')
-    ck.trusted.append('hand-written models Fmt/LongString.v, Fmt/FgdBin.v, Fmt/FgdBinEnt.v, Fmt/FgdLine.v, SM/LazyDb.v (tied by differential '
+               'cycles and fans, non-trivial = more than one query; entity headers: 0-3 bases (30% aliases), 0-5 helpers from a pool of '
+               'real helper types (with and without arguments, halfgridsnap, unknown and extension helpers), descriptions empty / short / '
+               'special / long, as written and with 1-2 token mutations, non-trivial = more than 6 tokens; several databases: 2-3 '
+               'hand-built databases over 8 class names that overlap, alias bases inside and across blocks, histories of engine_def '
+               'queries then engine_dbase(), and generated override databases put in front of the bundled one (add_engine_database), '
+               'non-trivial = a class defined in two databases is queried')
+    ck.trusted.append('hand-written models Fmt/LongString.v, Fmt/FgdBin.v, Fmt/FgdBinEnt.v, Fmt/FgdLine.v, Fmt/FgdBody.v, Fmt/FgdHead.v, SM/LazyDb.v, SM/LazyDbMulti.v (tied by differential '
                       'correspondence on every run; decisive branches and layouts read from the source by the translator)')
     ck.trusted.append('srctools.tokenizer.Tokenizer as the lexer of the text-line correspondences (only quoted strings are modelled at character level)')
-    ck.trusted.append('entity headers, helpers, snippets and the order of lines inside an entity are outside every model: covered by search only')
+    ck.trusted.append('snippets, autovis() helpers, the @Kind keyword and the order of lines inside an entity are outside every model: covered by search only; '
+                      'helper objects are abstract in the header model (HELPER_IMPL[..].parse tabulated per run)')
     ck.assumptions += [
         'ent_unserialise is a function of the block bytes and the immutable shared strings (parameter `decode` of c16_lazy_equals_eager)',
         'lzma.compress/decompress are inverse (outside the model)',
@@ -1960,64 +2771,27 @@ def run(ck: Ck) -> None:
         'binary record theorem: spawnflag masks are powers of two below 2^128, SPAWNFLAGS keyvalues carry no default and other keyvalues no '
         'flag list (what the parser produces); the format does not carry descriptions, helpers, keyvalue tags, kv_order, reportable',
         'custom_syntax=False cannot represent ", \\ and CR in texts, nor tags/resources/extension helpers/aliasof (documented loss)',
+        'entity header theorem: base names and helper arguments are non-empty, stripped, without commas; bases are distinct; no helper is called '
+        'base/aliasof/autovis; HELPER_IMPL[type].parse(export()) gives the helper back (checked on the generated helpers as a data obligation)',
+        'translator normalisation: attribute loads are plain field reads, callees do not re-assign fields of their arguments, the str methods '
+        'casefold/lower/upper/strip/... have no effects (single-assignment locals bound to such expressions are inlined before matching)',
+        'several databases: every database is an independent LazyDb; deepcopy of the answers and FGD.apply_bases() after the merge are outside the model',
         'accepted normalisations: I/O type decay, empty BOOL default = "0", effective keyvalue order, newline -> space in choice/flag names',
     ]
-    ok_t = ck.translate('FgdConsts_gen', c16_fgd.translate)
+    ok_t = timed('translate', ck.translate, 'FgdConsts_gen', c16_fgd.translate)
     side = ck.extra.get('translated', {}).get('FgdConsts_gen', {})
-    built = ok_t and ck.build(['Props/C16.vo'])
+    built = ok_t and timed('build', ck.build, ['Props/C16.vo'])
     data = raw_db()
     tb = db_tables(data)
+    join: Callable[[], bool] = lambda: False
     if built:
-        ck.theorems('Props/C16.v')
-        ck.instance_obligations(IMPORTS, {
-            'escape_table_invertible': 'table_ok esc_pairs esc_excluded',
-            'longstring_limits_sane': 'limits_ok',
-            'longstring_empty_text_written_as_quotes': 'empty_quotes gen_cfg',
-            'longstring_hard_cut_never_strands_backslash': 'cut_guard gen_cfg',
-            'longstring_cfg_ok_is_these': 'cfg_ok_is_parts',
-            'longstring_loop_test_is_gt': 'op_is_gt ls_loop_op',
-            'longstring_newline_threshold_is_gt': 'op_is_gt ls_nl_op',
-            'longstring_newline_needle': 'needle1_ok',
-            'longstring_space_needle': 'needle2_ok',
-            'longstring_joiner': 'joiner_ok',
-            'plain_escape_replacements': 'std_repl_matches',
-            'unguarded_hard_cut_is_refuted': 'hard_cut_breaks',
-            'value_type_order_covers_enum': 'order_ok value_type_order value_types_all',
-            'file_type_order_covers_enum': 'order_ok file_type_order file_types_all',
-            'entflags_layout': 'entflags_layout_ok',
-            'entity_types_have_distinct_flags': 'entity_flags_distinct',
-            'bit_literals_are_128_127': 'bit_literals_ok',
-            'index_formats': 'index_formats_ok',
-            'shared_strings_fit_u16': 'N.ltb shared_strings 65536',
-            'binary_tables_fit_the_record_model': 'bin_tables_ok',
-            'binary_header_formats': 'header_formats_ok',
-            'binary_layout_kv_serialise': 'layout_kv_writer_ok',
-            'binary_layout_kv_unserialise': 'layout_kv_reader_ok',
-            'binary_layout_iodef': 'layout_io_ok',
-            'binary_layout_ent_serialise': 'layout_ent_writer_ok',
-            'binary_layout_ent_unserialise': 'layout_ent_reader_ok',
-            'text_kv_two_colons_before_description_without_default': '(colons_before_desc_without_default gen_line_cfg =? 2)%nat',
-            'text_kv_one_colon_between_default_and_description': '(kv_colons_after_default =? 1)%nat',
-            'text_bool_default_written_as_0': 'bool_default_filled gen_line_cfg',
-            'text_resources_block_written_when_defined': 'res_block_if_defined gen_line_cfg',
-            'text_line_cfg_ok_is_these': 'Bool.eqb (line_cfg_ok gen_line_cfg) ((colons_before_desc_without_default gen_line_cfg =? 2)%nat '
-                                         '&& bool_default_filled gen_line_cfg && res_block_if_defined gen_line_cfg)',
-            'text_empty_resources_need_the_block': 'empty_resources_need_block',
-            'lazy_bases_resolved_through_get_ent': 'lazy_via_get_ent',
-            'lazy_map_lookup_is_refuted': 'map_lookup_breaks',
-        }, name='c16')
-        data_obligations(ck, data, tb)
-        corr_writer_reader(ck)
-        corr_bits(ck)
-        corr_strdict(ck)
-        corr_binary_records(ck, data, tb)
-        line_data_obligations(ck)
-        corr_lines(ck)
         lazy_side = side.get('engine_db', {}).get('lazy', {})
-        corr_lazy(ck, data, tb, bool(lazy_side.get('via_get_ent', True)))
+        multi_side = side.get('multi_db', {})
+        via = bool(lazy_side.get('via_get_ent', True))
+        ck.extra['added_database_goes'] = multi_side.get('added_database_goes')
         # Information only: the model marks a block as decoded before its bases loop, as the source does today.  Marking it
         # afterwards is observably the same (ent_map already holds the block's definitions, so no look-up re-enters the block):
-        # no obligation, the lazy budgets are raised instead.
+        # no obligation, the budgets are raised instead.
         ck.extra['lazy_block_marked_before_bases_loop'] = bool(lazy_side.get('mark_before_resolve', True) and lazy_side.get('mark_after_decode', True))
         if not ck.extra['lazy_block_marked_before_bases_loop']:
             ck.notes.append('_parse_block no longer marks the block as decoded between the decoding loop and the bases loop: lazy budgets raised')
@@ -2025,12 +2799,38 @@ def run(ck: Ck) -> None:
         # informational: duplicates in the order lists (harmless, see c16_order_roundtrip)
         vo = side.get('engine_db', {}).get('vt_order', [])
         ck.extra['value_type_order_duplicates'] = sorted({x for x in vo if vo.count(x) > 1})
-    search_longstring(ck)
-    search_bundled(ck)
-    search_generated(ck)
-    search_binary(ck, data)
-    search_lazy(ck, data, tb)
-    search_lazy_synthetic(ck)
+        # The tie stages are coqc processes plus case generation; the searches are pure Python.  Two lanes of tie stages run
+        # beside the searches (see StageCk: private random streams, buffered records, so nothing depends on timing).
+        join = run_stages(ck, [
+            [('theorems_0', theorems_part, (0, 2)),
+             ('instance_obligations', lambda c: c.instance_obligations(IMPORTS, INSTANCE_OBLIGATIONS, name='c16'), ()),
+             ('data_obligations', data_obligations, (data, tb)),
+             ('corr_writer_reader', corr_writer_reader, ()),
+             ('corr_strdict', corr_strdict, ()),
+             ('corr_lazy', corr_lazy, (data, tb, via)),
+             ('corr_head', corr_head, ())],
+            [('theorems_1', theorems_part, (1, 2)),
+             ('corr_binary_records', corr_binary_records, (data, tb)),
+             ('line_data_obligations', line_data_obligations, ()),
+             ('corr_lines', corr_lines, ()),
+             ('corr_multi', corr_multi, (via, bool(multi_side.get('effective_first', True)))),
+             ('corr_bits', corr_bits, ())],
+        ])
+
+    def searches() -> None:
+        timed('search_longstring', search_longstring, ck)
+        timed('search_bundled', search_bundled, ck)
+        timed('search_generated', search_generated, ck)
+        timed('search_binary', search_binary, ck, data)
+        timed('search_binary_small', search_binary_small, ck, tb['names'])
+        timed('search_lazy', search_lazy, ck, data, tb)
+        timed('search_lazy_synthetic', search_lazy_synthetic, ck)
+        timed('search_multi_db', search_multi_db, ck, data, tb)
+    searches()
+    if join():
+        # a tie stage found a disagreement while the searches ran with the small budgets: search again, escalated (ck.budget)
+        ck.notes.append('a tie was broken by a stage that ran beside the searches: searches repeated with the thorough budgets')
+        searches()
     keys = {v['key'] for v in ck.violations}
     # Failed obligations are explained by a concrete violation of the same mechanism (with a replayable input).
     if any(k.startswith('longstring:empty-text') or k.startswith('bundled-db-export-unparseable:empty-display-name') for k in keys):
@@ -2056,8 +2856,9 @@ def run(ck: Ck) -> None:
         ck.explain('instance:text_bool_')
         ck.explain('instance:text_line_cfg_ok_is_these')
         ck.explain('correspondence:text_lines_')
+        ck.explain('correspondence:text_header_')
     # a translator that failed closed at a site is explained by a concrete violation of the mechanism that site belongs to
-    site_of = (('EngineDB', 'lazy-'), ('_parse_block', 'lazy-'), ('get_fgd', 'lazy-'), ('serialise', 'binary-'), ('BinStrDict', 'binary-'),
+    site_of = (('engine_dbase', 'lazy-multi-db'), ('engine_def', 'lazy-multi-db'), ('add_engine_database', 'lazy-multi-db'), ('EngineDB', 'lazy-'), ('_parse_block', 'lazy-'), ('get_fgd', 'lazy-'), ('serialise', 'binary-'), ('BinStrDict', 'binary-'),
                ('_write_longstring', 'longstring:'), ('_fgd_escape', 'longstring:'), ('ESCAPE', 'longstring:'),
                ('KVDef.export', 'generated-fgd'), ('IODef.export', 'generated-fgd'), ('EntityDef.export', 'generated-fgd'))
     for tie in ck.tie_broken:
@@ -2067,6 +2868,13 @@ def run(ck: Ck) -> None:
     if any(k.startswith('lazy-') for k in keys):
         ck.explain('correspondence:lazy_db')
         ck.explain('instance:lazy_')
+    if any(k.startswith('lazy-multi-db') for k in keys):
+        ck.explain('correspondence:multi_db')
+        ck.explain('instance:multi_db_')
+    if any(k.startswith('lazy-base-unresolved') for k in keys):
+        # bases left as bare names inside one database also show in the histories over several databases (the model in the
+        # ent_map mode leaves them unresolved in the whole database too, FGD.apply_bases() resolves them there): same mechanism
+        ck.explain('correspondence:multi_db')
 
 
 # =============================================================================================== replay
@@ -2103,6 +2911,25 @@ def replay(data: dict) -> int:
             print('RecursionError: the base look-ups do not terminate')
             bad += 1
         return 1 if bad else 0
+    if kind == 'multi_db':
+        sc = r['scenario']
+        for i, d in enumerate(sc['dbs']):
+            print(f'database {i} of the list: blocks {d["blocks"]}, stored bases {d["bases"]}, marks {d["marks"]}')
+        print('operations (None = FGD.engine_dbase()):', sc['ops'])
+        try:
+            for op, obs, parsed in run_multi_impl(sc)['steps']:
+                print(f'  {"engine_dbase()" if op is None else "engine_def(%r)" % op} -> {obs}')
+        except Exception as e:   # noqa: BLE001
+            print('raises', repr(e))
+        found = check_multi_scenario(sc)
+        for k, t in found:
+            print('VIOLATION', k, ':', t)
+        return 1 if found else 0
+    if kind == 'added_database':
+        found3 = check_added_database(None, db_tables(raw_db())['names'], r['seed'], r.get('n_bundled', 40))
+        for k, t, _ in found3:
+            print('VIOLATION', k, ':', t)
+        return 1 if found3 else 0
     if kind == 'bundled':
         from srctools.fgd import FGD
         res = roundtrip_fgd(FGD.engine_dbase(), r['opts'])
